@@ -356,7 +356,7 @@ func (g *c10g) genMain() {
 }
 
 func (g *c10g) genFeat(s *c10Sub, tag string) *c10Feat {
-	kinds := []string{"chain", "switch", "ifexpr", "capture", "table", "var", "func", "host", "time", "condcall", "mainlog", "chain", "ifexpr"}
+	kinds := []string{"chain", "switch", "ifexpr", "capture", "table", "var", "func", "host", "time", "condcall", "mainlog", "chain", "ifexpr", "truthchain"}
 	k := g.pickS(kinds, "featkind")
 	// avoid-weight: the trigger of the coverage known finding is drawn rarely
 	if g.chance(1, 40, "ifexpr-capture") {
@@ -367,6 +367,35 @@ func (g *c10g) genFeat(s *c10Sub, tag string) *c10Feat {
 	f := &c10Feat{kind: k, out: out}
 	rin := "req.http." + in
 	switch k {
+	case "truthchain":
+		// else-if conditions that are a bare header, a negated header and a conjunction of both
+		f.lines = []string{
+			fmt.Sprintf("if (%s == \"a\") {", rin),
+			fmt.Sprintf("  set %s = \"va\";", out),
+			fmt.Sprintf("} else if (!%sb) {", rin),
+			fmt.Sprintf("  set %s = \"vnot\";", out),
+			fmt.Sprintf("} elsif (%sc && !%sd) {", rin, rin),
+			fmt.Sprintf("  set %s = \"vand\";", out),
+			fmt.Sprintf("} elseif (%sc) {", rin),
+			fmt.Sprintf("  set %s = \"vtruthy\";", out),
+			"} else {",
+			fmt.Sprintf("  set %s = \"velse\";", out),
+			"}",
+		}
+		f.ins = []c10In{{in, []string{"a", "zz-none"}}, {in + "b", []string{"1", "<unset>"}}, {in + "c", []string{"1", "<unset>"}}, {in + "d", []string{"1", "<unset>"}}}
+		f.eval = func(iv map[string]string, env *c10Env) c10Val {
+			switch {
+			case iv[in] == "a":
+				return c10Val{set: true, s: "va"}
+			case iv[in+"b"] == "<unset>":
+				return c10Val{set: true, s: "vnot"}
+			case iv[in+"c"] == "1" && iv[in+"d"] == "<unset>":
+				return c10Val{set: true, s: "vand"}
+			case iv[in+"c"] == "1":
+				return c10Val{set: true, s: "vtruthy"}
+			}
+			return c10Val{set: true, s: "velse"}
+		}
 	case "chain":
 		n := g.intn(1, 3, "arms")
 		hasElse := g.chance(1, 2, "else")
@@ -1239,6 +1268,10 @@ func (g *c10g) callTest(observer bool) {
 				v = "nn"
 			}
 			in[i.name] = v
+			if v == "<unset>" {
+				b.add(fmt.Sprintf("unset req.http.%s;", i.name))
+				continue
+			}
 			b.add(fmt.Sprintf("set req.http.%s = %s;", i.name, q(v)))
 		}
 	}
